@@ -114,7 +114,8 @@ class C08(object):
         variants = []
         if case['kind'] == 'orders':
             for sd, ef in zip(case['order_seeds'], case['ext_first']):
-                variants.append({'order_seed': sd, 'ext_first': ef, 'query_zone': qz})
+                variants.append({'order_seed': sd, 'ext_first': ef, 'query_zone': qz,
+                                 'run_via_steps': len(variants) % 3 == 2})
         else:
             ck = spec['zones'][0]['countries'][0]['key']
             for p in case['perms']:
